@@ -1021,6 +1021,103 @@ fn extreme_programs(rng: &mut Rng, rounds: usize) -> Vec<Vec<String>> {
     out
 }
 
+// ------------------------------------------------------------------------------------------
+// Error-provoking names: undefined commands of every shape, in every position and context.
+// ------------------------------------------------------------------------------------------
+
+/// (preamble that makes the token a command token, the token as written)
+fn undefined_names() -> Vec<(String, String)> {
+    let mut v: Vec<(String, String)> = vec![];
+    // control words: ASCII and non-ASCII letters, close to / far from existing primitives
+    // (the spell-checker of UndefinedCommandError), one-character, very long, other case
+    for w in [
+        "undefinedcs", "q", "Q", "advanc", "advancee", "cuont", "counts", "tim", "relaxx", "ifnumm", "Count", "DEF", "zzzzqqqqwwwwjjjj", "xa", "the\u{e9}",
+        "\u{e9}l\u{e9}phant", "\u{e9}", "advanc\u{e9}", "c\u{f4}unt", "\u{df}", "\u{4e16}\u{754c}", "\u{3b1}\u{3b2}\u{3b3}", "e\u{301}", "\u{1d400}",
+    ] {
+        v.push((String::new(), format!("\\{w}")));
+    }
+    v.push((String::new(), format!("\\{}", "long".repeat(80))));
+    // control symbols (one non-letter character)
+    for c in ["\u{20ac}", "\u{1f600}", "!", "1", "\\", "%", "{", "}", "#", "&", "$", "^", "_", "~", " ", "^^M", "^^@", "^^?", "\u{a0}", "\u{301}", "\u{2028}", "\u{10ffff}"] {
+        v.push((String::new(), format!("\\{c}")));
+    }
+    // the empty name: an escape character at the very end of a line without end-of-line character
+    v.push(("\\endlinechar=-1 ".into(), "\\\n".into()));
+    // active characters: `~` is active already; the others are made active first
+    v.push((String::new(), "~".into()));
+    for c in [
+        "!", "@", "a", "1", "=", "\u{e9}", "\u{df}", "\u{a0}", "\u{20ac}", "\u{4e16}", "\u{2028}", "\u{feff}", "\u{1f600}", "\u{1d400}", "\u{10ffff}", "\u{301}", "\u{80}",
+        "\u{7ff}", "\u{800}", "\u{ffff}", "\u{10000}",
+    ] {
+        v.push((format!("\\catcode`\\{c}=13 "), c.to_string()));
+    }
+    // a base letter followed by an active combining mark
+    v.push(("\\catcode`\\\u{301}=13 ".into(), "e\u{301}".into()));
+    // active space and active end of line
+    v.push(("\\catcode`\\ =13 ".into(), " ".into()));
+    v.push(("\\catcode`\\^^M=13 ".into(), "\n".into()));
+    v
+}
+
+/// Contexts in which the undefined command `@N@` is met (`@N@` is always followed by a
+/// non-letter so that control words end where they should).
+const UNDEFINED_USES: &[&str] = &[
+    "@N@",
+    "@N@ rest",
+    "@N@@N@",
+    "{\\def@N@{x}@N@}@N@ after the group",
+    "{\\gdef\\tmp{}\\let@N@=\\tmp @N@}@N@ rest",
+    "\\let@N@=\\alsoundefined @N@ rest",
+    "\\let\\x=@N@ \\x rest",
+    "\\the@N@ rest",
+    "\\advance@N@ by 1 ",
+    "\\count@N@=1 ",
+    "\\count1=@N@ ",
+    "\\dimen1=1@N@ ",
+    "\\expandafter@N@@N@ rest",
+    "\\expandafter\\relax@N@ rest",
+    "\\noexpand@N@ rest",
+    "\\ifnum@N@<1 a\\fi ",
+    "\\ifnum1<@N@ a\\fi ",
+    "\\iftrue@N@\\fi ",
+    "\\iffalse\\else@N@\\fi ",
+    "\\ifcase1 a\\or@N@\\fi ",
+    "\\def\\a{@N@}\\a rest",
+    "\\def\\a#1{#1}\\a@N@ rest",
+    "\\def\\a#1@N@{[#1]}\\a x@N@ @N@",
+    "\\toks1={@N@}\\the\\toks1 rest",
+    "\\input @N@",
+    "\\openin1=@N@ ",
+    "\\global@N@ rest",
+    "\\long@N@",
+    "\\catcode@N@=12 ",
+    "\\chardef@N@=65 @N@ \\mathchardef@N@=1 @N@",
+    "\\countdef@N@=1 {\\countdef@N@=2 }@N@=3 \\let@N@=\\undefinedtoo @N@=4 ",
+    "\\read1 to@N@ @N@ rest",
+    "\\newInt@N@ {\\let@N@=\\undefinedtoo @N@=1 }@N@=2 ",
+    "\\tracingmacros=2 \\def\\a#1{#1}\\a@N@ rest",
+];
+
+/// What comes before on the same or earlier lines.
+const PLACEMENTS: &[&str] = &["", "\u{e9}\u{4e16}\u{1f600} ", "text\n\n  \u{e9} ", "a^^41\u{df}", "\u{e9}%c\n\u{3b1}\u{301} "];
+
+fn undefined_programs(rng: &mut Rng, thorough: bool) -> Vec<Vec<String>> {
+    let mut out = vec![];
+    for (pre, tok) in undefined_names() {
+        for (ui, u) in UNDEFINED_USES.iter().enumerate() {
+            for (pi, pl) in PLACEMENTS.iter().enumerate() {
+                // the bare uses in every placement; the other contexts in one (thorough: every)
+                if !(ui < 2 || thorough || rng.below(PLACEMENTS.len() as u64) as usize == pi) {
+                    continue;
+                }
+                let body = u.replace("@N@", &tok);
+                out.push(vec![pre.clone(), pl.to_string(), body]);
+            }
+        }
+    }
+    out
+}
+
 struct C09 {
     driver_path: String,
     debug: bool,
@@ -1333,7 +1430,7 @@ impl Property for C09 {
         "C09"
     }
     fn rule(&self) -> String {
-        "run: grammar-generated TeX programs over the full installed vocabulary (enumerated from texlang_stdlib::built_in_commands at run time, + \\par, \\newline), user macros, braces, boundary numbers/dimensions/indices/character codes, non-ASCII text, ^^ notation, token soup, every statement-prefix of a sample of programs, each in errorstop/scroll/nonstop/batch mode; plus extreme register states: \\count1, \\dimen0 and each component of \\skip0 (finite and fil/fill/filll) driven to -2^31, -2^31+1, 2^31-1, +-2^30, +-(2^30-1) by wrapping \\advance / \\multiply chains, then every one of ~130 arithmetic, scanning, comparison, index and code uses of that register, in all four modes; non-trivial = the run ended within the step budget (ok, error or panic). proto: every event sequence of length <= 4 plus random ones. chr/uint/ifcase: boundary values.".into()
+        "run: grammar-generated TeX programs over the full installed vocabulary (enumerated from texlang_stdlib::built_in_commands at run time, + \\par, \\newline), user macros, braces, boundary numbers/dimensions/indices/character codes, non-ASCII text, ^^ notation, token soup, every statement-prefix of a sample of programs, each in errorstop/scroll/nonstop/batch mode; plus undefined commands of every shape (control words/symbols with ASCII and 2/3/4-byte letters, names close to and far from primitives, empty and very long names, ASCII and non-ASCII active characters incl. combining marks, active space and end of line) in 34 contexts (bare, at end of input, after a group that defined them, after \\let to an undefined command, after \\the/\\advance/\\count/\\expandafter/\\noexpand/\\if.., in macro bodies, arguments and delimiters, as file names, ...) at line start / after multi-byte text / on later lines, in all four modes; plus extreme register states: \\count1, \\dimen0 and each component of \\skip0 (finite and fil/fill/filll) driven to -2^31, -2^31+1, 2^31-1, +-2^30, +-(2^30-1) by wrapping \\advance / \\multiply chains, then every one of ~130 arithmetic, scanning, comparison, index and code uses of that register, in all four modes; non-trivial = the run ended within the step budget (ok, error or panic). proto: every event sequence of length <= 4 plus random ones. chr/uint/ifcase: boundary values.".into()
     }
     fn builtin_corpus(&self) -> Vec<String> {
         let mut v = vec![];
@@ -1509,6 +1606,13 @@ impl Property for C09 {
                     out.push(format!("run {mode0} {}", enc(&p)));
                     k = k.saturating_sub(step);
                 }
+            }
+        }
+        // --- undefined commands of every shape x context x placement, in all four modes
+        let mut r3 = rng.fork();
+        for parts in undefined_programs(&mut r3, ctx.thorough) {
+            for m in MODES {
+                out.push(format!("run {m} {}", enc_parts(&parts)));
             }
         }
         // --- extreme register states x every use, in all four modes
